@@ -83,7 +83,10 @@ def corpus_cases(pid):
 def evaluate(prop, cases):
     """Run implementation and model on the cases and judge each."""
     impl_outs = impl.run_impl(prop.worker, cases, hashseed=prop.hashseed())
-    mcases = [prop.model_case(c) for c in cases]
+    if hasattr(prop, 'model_case2'):
+        mcases = [prop.model_case2(c, io) for c, io in zip(cases, impl_outs)]
+    else:
+        mcases = [prop.model_case(c) for c in cases]
     model_outs = model.run_model(mcases)
     js = []
     for c, io, mo in zip(cases, impl_outs, model_outs):
